@@ -70,9 +70,9 @@ def e2_scenarios(tier):
          (SC.scn("always-2-dependents-rebuild-j2", w, ["redo --no-log -j2 top"], setup=[["ifchange", ["top"]]], visible=vis), 1 if q else 2)]
     # two overlapping top-level runs: each run that needs the always-target builds it exactly once -- also when the run that
     # started later gets there first, and also when another run executes a redo-always of its own in between
-    w2 = World("always-two-runs", {"s": ["0", "1"]},
+    w2 = World("always-two-runs", {"s": ["0", "1"], "s2": ["0", "1"]},
                {"top.do": [S(deps=["d1", "d2"], split=True)], "d1.do": [S(deps=["al"])], "d2.do": [S(deps=["al"], out="file")],
-                "al.do": [S(kind="always", deps=["s"])], "other.do": [S(deps=["al"])], "a2.do": [S(kind="always", deps=["s"], out="file")]},
+                "al.do": [S(kind="always", deps=["s"])], "other.do": [S(deps=["al"])], "a2.do": [S(kind="always", deps=["s2"], out="file")]},   # a2 shares nothing with al but the //ALWAYS pseudo file
                ["top", "d1", "d2", "al", "other", "a2"], ["top"])
     L.append((SC.scn("always-two-runs-same-target", w2, ["redo-ifchange top", "redo-ifchange other"], visible=vis, per_run=True), 1 if q else 2))
     L.append((SC.scn("always-two-runs-other-always-target", w2, ["redo-ifchange top", "redo-ifchange a2"], visible=vis, per_run=True, exactly=True), 1 if q else 2))
